@@ -17,6 +17,19 @@ fn main() {
     }
     let verif_dir = std::env::var("VERIF_DIR").unwrap_or_else(|_| "/verif".to_string());
     let repo_dir = std::env::var("VERIF_REPO").unwrap_or_else(|_| "/repo".to_string());
+    if args[1] == "--child" {
+        // child side of the crash-capture monitors: --child <prop> <tier> <seed> <from> <to>
+        ivm::util::install_panic_hook();
+        let prop = args.get(2).map(|s| s.as_str()).unwrap_or("");
+        let tier = args.get(3).map(|s| s.as_str()).unwrap_or("quick");
+        let num = |k: usize| args.get(k).and_then(|s| s.parse::<u64>().ok()).unwrap_or(0);
+        match prop {
+            "C11" => ivm::props::c11::child_main(tier, num(4), num(5), num(6)),
+            "C25" => ivm::props::c25::child_main(tier, num(4), num(5), num(6)),
+            _ => std::process::exit(2),
+        }
+        return;
+    }
     let reg = registry();
     if args[1] == "list" {
         for p in &reg {
